@@ -2367,6 +2367,8 @@ class DigitInterp(MiniInterp):
 #                                            configuration on probe literals
 # C03.grouped / C03.grouped.percent        : the culture's grouped / decimal literal is ONE match of a digit pattern the
 #                                            registered extractor wires (regex-language membership, L+)
+# C03.grouped.signed                       : the same literals with '-' written before them are ONE match of a wired digit
+#                                            pattern too (extract() keeps a merged span only when one pattern matched exactly it)
 
 def _mark_probes(a, b, g, d):
     out = []
@@ -2401,6 +2403,8 @@ def rule_digit_parser(chk):
                             'number extractor', floor=8, control=True)
     chk.rule('C03.grouped.percent', 'the same literals followed by % are one match of the registered percentage extractor', floor=12,
              control=True)
+    chk.rule('C03.grouped.signed', 'every literal that is one match of a digit pattern is also one match of a digit pattern of the same '
+                                   'extractor when a minus sign is written directly before it', floor=60, control=True)
     regs = number_registrations(ev)
     bnp = idx.cls('recognizers_number.number.parsers.BaseNumberParser')
     gdv = bnp.methods.get('_get_digital_value')
@@ -2424,6 +2428,8 @@ def rule_digit_parser(chk):
         th, dec, _l = modes[mode]
         return th, (dec if dec is not None else '.')
 
+    unread = {}      # extractor -> digit patterns the regex reader cannot analyse (a miss next to one of these is not a verdict)
+
     def digit_patterns(ecls):
         """evaluated patterns of the extractor closure that lead to the digit parser ('Num' in the tag)"""
         out = []
@@ -2439,15 +2445,46 @@ def rule_digit_parser(chk):
                     pat = bvals['IntegerRegexDefinition'].fill('\\b', _rx_escape(th))
                 else:
                     pat = bvals['DoubleRegexDefinition'].fill('\\b', _rx_escape(th), _rx_escape(dec))
+            if pat is None and rv.kind == 'format':
+                unread.setdefault(ecls.qual, []).append('%s:%d %s' % (rv.cls.mod.rel, rv.line, rv.name or rv.expr))
             if pat is None:
                 continue
             try:
                 out.append((rv, rx.parse(pat)))
             except rx.RxUnsupported:
+                unread.setdefault(ecls.qual, []).append('%s:%d %s' % (rv.cls.mod.rel, rv.line, rv.name or rv.expr))
                 continue
             except rx.RxError as e:
                 raise AnalysisError('%s:%d pattern %s not parsable: %s' % (rv.cls.mod.rel, rv.line, rv.name or rv.expr, e))
         return out
+
+    def judge_signed(ecls, code, th, dec, line, pats, covered, suffix, what, shown=''):
+        """C03.grouped.signed: BaseNumberExtractor.extract keeps a merged span only when ONE pattern matched exactly that span, so the
+        literal with its sign must itself be one match of a pattern (a sign matched by one pattern and the digits by another is
+        dropped as a whole).  Judged only on literals whose unsigned form is one match (the others are C03.grouped's)."""
+        if not covered:
+            chk.exempt('C03.grouped.signed', ecls.mod.path, '%s[%s] %s' % (ecls.name, code, what),
+                       'no unsigned literal of the culture is one match (reported by C03.grouped)')
+            return
+        for lit in covered:
+            signed = '-' + lit + suffix
+            ok = any(rx.matches(t, signed) for _rv, t in pats)
+            by = '?'
+            if not ok and unread.get(ecls.qual):
+                raise AnalysisError('C03.grouped.signed: %r is not matched by the readable digit patterns of %s, but %s could not be '
+                                    'analysed by the regex reader: no verdict' % (signed, ecls.name, ', '.join(unread[ecls.qual])))
+            if not ok:
+                for rv, t in pats:
+                    if rx.matches(t, lit + suffix):
+                        by = '%s:%d %s' % (rv.cls.mod.rel, rv.line, rv.name or ('format row ' + str(rv.mode)))
+                        break
+            chk.judge(ok, 'C03.grouped.signed', ecls.mod.path, '%s[%s] %s %r' % (ecls.name, code, what, signed + shown),
+                      'grouping %s, decimal %s; unsigned literal is one match: True; signed literal is one match: %s'
+                      % (show(th), show(dec), ok),
+                      'culture %s (grouping %s, decimal %s): %r is not one match of any digit pattern wired by %s although %r is (first by '
+                      '%s, which has no sign part): the sign is matched by another pattern, no single match covers the merged span, and '
+                      'the whole literal is dropped or loses its sign' % (code, show(th), show(dec), signed, ecls.name, lit + suffix, by),
+                      line)
 
     seen_cfg = set()
     pat_cache = {}
@@ -2524,6 +2561,7 @@ def rule_digit_parser(chk):
                       '%d literals (grouping %s, decimal %s); not one match: %s' % (len(lits), show(th), show(dec), miss),
                       'culture %s (grouping %s, decimal %s): no single digit pattern wired by %s matches the whole literal(s) %s, so they '
                       'cannot be recognised as one entity' % (code, show(th), show(dec), nr.extractor_cls.name, miss), r.line)
+            judge_signed(nr.extractor_cls, code, th, dec, r.line, pats, [lit for lit in lits if lit not in miss], '', 'number')
         elif r.model_cls.name == 'PercentModel':
             ecls = nr.extractor_cls
             key = ecls.qual
@@ -2554,6 +2592,7 @@ def rule_digit_parser(chk):
                           '%d literals; number part not one match: %s' % (len(lits), miss),
                           'culture %s: the number extractor inside %s has no single digit pattern matching the number part of %s, so these '
                           'are not recognised as one percentage' % (code, ecls.name, miss), r.line)
+                judge_signed(ecls, code, th, dec, r.line, pats, [lit for lit in lits if lit + '%' not in miss], '', 'percentage', '%')
             else:
                 if not pats:
                     raise AnalysisError('%s: no digit percentage pattern reachable from %s' % (code, ecls.name))
@@ -2562,6 +2601,7 @@ def rule_digit_parser(chk):
                           '%d literals (grouping %s, decimal %s); not one match: %s' % (len(lits), show(th), show(dec), miss),
                           'culture %s (grouping %s, decimal %s): no single digit pattern wired by %s matches the whole literal(s) %s: the '
                           'percentage is cut at a grouping mark' % (code, show(th), show(dec), ecls.name, miss), r.line)
+                judge_signed(ecls, code, th, dec, r.line, pats, [lit for lit in lits if lit + '%' not in miss], '%', 'percentage')
     # controls: the interpreter on a digit parser that counts the sign in the distance (today's defect shape) and membership
     ctl_attrs = {'self.config.decimal_separator_char': '.', 'self.config.non_decimal_separator_char': ',',
                  'self.config.is_multi_decimal_separator_culture': True, 'self.' + variant_attr: False, 'sys.maxsize': _sys.maxsize}
@@ -2578,6 +2618,9 @@ def rule_digit_parser(chk):
     chk.control('C03.grouped', rx.matches(t, '12.345.678') and not rx.matches(t, '12,345,678'))
     t = rx.parse('(?<!%|\\d)\\d+([\\.．]\\d+)?(\\s*)[％%](?!\\d)')
     chk.control('C03.grouped.percent', rx.matches(t, '234%') and not rx.matches(t, '1,234%'))
+    t = rx.parse('(?<=\\b)(?<!\\d+[\\.,])\\d{1,3}(\\.\\d{3})+,\\d+')
+    t2 = rx.parse('(((?<!\\d+\\s*)-\\s*)|((?<=\\b)(?<!\\d+[\\.,])))\\d{1,3}(\\.\\d{3})+,\\d+')
+    chk.control('C03.grouped.signed', rx.matches(t, '1.234,5') and not rx.matches(t, '-1.234,5') and rx.matches(t2, '-1.234,5'))
 
 
 _run_before_digit_parser = run
